@@ -16,8 +16,10 @@ import (
 // offsetResultIdx: index of the offset result of a library function that reads from a []byte/string parameter:
 // the result named p or n, else the first result of type int. -1 if none.
 func offsetResultIdx(fn *ssa.Function) int {
-	if fn.Name() == "unescapeUnicodeChar" {
-		return -1 // reports a byte count relative to its own argument; handled by the string content rules
+	if r := fn.Signature.Results(); r.Len() == 3 && isByteSliceT(r.At(0).Type()) && isIntT(r.At(1).Type()) {
+		if b, ok := r.At(2).Type().Underlying().(*types.Basic); ok && b.Kind() == types.Bool && fn.Signature.Params().Len() == 2 {
+			return -1 // unescapeUnicodeChar's shape: a byte count relative to its own argument; handled by the string content rules
+		}
 	}
 	hasInput := false
 	for _, p := range fn.Params {
